@@ -180,4 +180,18 @@ PROPS = {
                       "without any chunk would dereference nil in Go; the property quantifies over actors built from event streams.",
         "assumptions": ["|ts| < 2^53", "decoding of the actor streams is C01"],
     },
+    "C18": {
+        "streams": ["csv"],
+        "rule": "csv: chunk streams from real collectors over flat schemas (keys incl. commas, quotes, newlines, leading blanks) and nested schemas, all metric types except "
+                "datetime, negative and extreme values, 1-3 parts with differing metric counts (incl. metric-less chunks); WriteCSV text parsed with encoding/csv, DumpCSV files, "
+                "ConvertFromCSV with bucket sizes 1-5 re-read with ReadStructuredMetrics. Oracle: header = keys, one row of integer-normalised values per sample, round trip "
+                "keeps keys and integer table, rotation/error exactly at metric-count changes. Distinct = distinct byte stream.",
+        "level_text": "Theorems (Props/C18.lean): atoi(itoa v) = v for every integer (concrete decimal functions); every row is the integer table's row; header = keys; WriteCSV "
+                      "succeeds with header + all rows on a constant metric count and fails at a change; DumpCSV rotates exactly at a change and every new file starts with its "
+                      "header; a converted row is the document of the header's keys and the row's integers (two's complement identity).",
+        "level_note": "Quoting/splitting of records is encoding/csv (external; exercised by the correspondence with metacharacter keys). A header consisting of one empty field is "
+                      "written as an empty line and lost (encoding/csv behaviour; not generated). Datetime columns are rendered as text and are outside the round trip, as the "
+                      "property says. The zero-metric-chunk sentinel defect (F19) is fixed.",
+        "assumptions": ["read(write records) = records for encoding/csv"],
+    },
 }
